@@ -33,7 +33,7 @@ std::string lockstep(HState &h, std::vector<TasmanianSparseGrid*> const &twins, 
         Obs o0 = observe(h.g, oo);
         for(size_t t=0; t<twins.size(); t++){
             Obs o1 = observe(*twins[t], oo);
-            std::string df = obs_diff(o0, o1);
+            std::string df = obs_diff_state(o0, o1);
             if (!df.empty()){
                 detail = J().kv("step", s.json()).i("twin", (long long) t).str("field", df).i("continuation_step", i).obj();
                 return s.name() + ":" + df;
